@@ -104,7 +104,10 @@ def run_case(ctx, case):
                                 goal = False
                             else:
                                 goal = z3.And(T.B(T.eq(tk[0].t, cb)), T.B(T.eq(tk[1].t, pb)), T.B(tk[0].ty == "i128" and tk[1].ty == "u8"))
-                    r = res.vc(ctx, name, ob.state.pruned_constraints(goal), goal, {"c": c.t, "e": e.t}, {"kind": "diff"})
+                    # counterexample selection: str_to_dec never returns a zero coefficient with a positive exponent, a literal after '-'
+                    # has a non-positive coefficient, and exponents beyond a few digits only bloat the replayed literal
+                    prefer = [c.t != 0, e.t <= 400, e.t >= -400] + ([c.t < 0] if sign_branch else [])
+                    r = res.vc(ctx, name, ob.state.pruned_constraints(goal), goal, {"c": c.t, "e": e.t}, {"kind": "diff", "blank": sign_branch}, prefer=prefer)
                     if ia < 2 and ib == 0:
                         res.sample({"vc": name, "status": r.status, "time_s": round(r.time, 4)})
         return res.done()
@@ -150,9 +153,49 @@ def replay(ctx, native, v):
     info = v["info"]
     if info["kind"] == "gen":
         return {"reproduced": True, "line": "Dec!(%s) vs from_str" % info["lit"], "observed": info["out"], "expected": "agreement"}
-    # (c, e) pair: no public way to inject a str_to_dec result; find a literal with this value
+    # (c, e) pair: there is no public way to inject a str_to_dec result, so a literal with this value is written out, compiled with the
+    # real macro and compared with from_str on the same text at run time
     c, e = v["inputs"]["c"], v["inputs"]["e"]
-    return {"reproduced": False, "line": "", "observed": "no literal constructed for (c=%d, e=%d)" % (c, e), "expected": ""}
+    blank = info.get("blank", False)
+    if (c == 0 and e > 0) or abs(e) > 5000 or (blank and c > 0):
+        return {"reproduced": False, "line": "", "observed": "no literal has the str_to_dec result (c=%d, e=%d)%s" % (c, e, " after '- '" if blank else ""), "expected": ""}
+    text = "%de%d" % (abs(c), e)
+    rt_text = ("-" if (c < 0 or blank) else "") + text
+    lit = ("- " if blank else ("-" if c < 0 else "")) + text
+    key = (lit,)
+    if key in _RP:
+        return _RP[key]
+    if len(_RP) >= 8:
+        return {"reproduced": False, "line": lit, "observed": "replay budget of 8 generated programs used up", "expected": ""}
+    from vfw import build
+    import subprocess, shutil
+    d = os.path.join(build.BUILD, "macrotest-replay")
+    os.makedirs(os.path.join(d, "src"), exist_ok=True)
+    open(os.path.join(d, "Cargo.toml"), "w").write('[package]\nname = "macrotest"\nversion = "0.1.0"\nedition = "2021"\n\n[dependencies]\nfpdec = { path = "%s" }\n\n[workspace]\n' % build.REPO)
+    shutil.copy(os.path.join(build.REPO, "Cargo.lock"), os.path.join(d, "Cargo.lock"))
+    open(os.path.join(d, "src", "main.rs"), "w").write(
+        "use fpdec::{Dec, Decimal};\nfn main() { let m: Decimal = Dec!(%s); println!(\"MACRO {} {}\", m.coefficient(), m.n_frac_digits()); }\n" % lit)
+    p = subprocess.run(["cargo", "run", "--offline", "--target-dir", os.path.join(build.BUILD, "macrotest-target-rp")], cwd=d, env=build.ENV,
+                       stdout=subprocess.PIPE, stderr=subprocess.PIPE)
+    rt = parse_native(native["dev"].ask("5 from_str %s" % rt_text.encode().hex()))
+    out = p.stdout.decode().strip()
+    if p.returncode != 0:
+        macro = ("REJECTED",) if b"proc macro panicked" in p.stderr else ("BUILD-ERROR", p.stderr.decode()[-200:])
+    else:
+        w = out.split()
+        macro = ("OK", int(w[1]), int(w[2])) if len(w) == 3 and w[0] == "MACRO" else ("?", out[-100:])
+    want = ("OK", rt[1], rt[2]) if rt[0] == "OK" else ("REJECTED",)
+    r = {"reproduced": macro != want and macro[0] in ("OK", "REJECTED"), "line": "Dec!(%s) vs 5 from_str %s" % (lit, rt_text.encode().hex()),
+         "observed": {"macro": macro, "from_str": rt}, "expected": "Dec!(lit) = from_str(lit) / both reject", "profile": "dev"}
+    _RP[key] = r
+    return r
+
+
+_RP = {}
+
+
+def _unused():
+    return None
 
 
 def confirm_known(ctx, native, ent):
